@@ -233,9 +233,12 @@ def run(ctx):
             for lf in classes.all_leaves(raw):
                 if lf[1] == "ret" and lf[2][0] == "some":
                     v = repr(lf[2])
-                    m = re.search(r"\('some', \('tup', \(\('cur', (\(.*?\)|'IN')\), ", v)
-                    if "('pure', 'Input::span', (('cur', 'IN'), ('cur', " not in v:
-                        bad = "span / content is not span(start, cursor after the match)"
+                    # ('some', ('tup', (CUR, NODE))): NODE must hold span(start, CUR) for the very cursor that is returned
+                    ret_cur = lf[2][1][1][0] if lf[2][1][0] == "tup" else None
+                    spans = [t for t in classes.subterms(lf[2]) if isinstance(t, tuple) and len(t) == 3 and t[0] == "pure" and t[1] == "Input::span"]
+                    if not spans or any(sp[2] != (("cur", "IN"), ret_cur) for sp in spans):
+                        bad = "span / content is not span(start, cursor after the match): returns cursor %r with %s" % (
+                            ret_cur, [sp[2] for sp in spans])
                     if name == "Insens" and "as_str" not in v:
                         bad = "content is not the text of span(start, end)"
         elif name == "POP":
